@@ -284,6 +284,84 @@ handlers that ran) of the calls that failed, as reported by the returned `multiE
 def failedCalls (calls : List Call) (errs : List Nat) : List Nat :=
   (List.range (calls.filter fun c => c.pat.isSome).length).filter fun i => errs.contains i
 
+/-! ### the stanza's own attributes (`stanza.NewIQ` / `NewMessage` / `NewPresence`)
+
+The routers learn the stanza's type (and `iqFallback` the id and the addresses of its reply)
+from the start element.  Only **unqualified** attributes are the stanza's own: an attribute in
+any namespace — a foreign one, the `xml` one, even the stanza's own namespace bound to a
+prefix — is a different attribute (Namespaces in XML §6.2) and never sets a header field. -/
+
+/-- the fields the multiplexer reads from a stanza's start element (addresses as the strings
+`jid.Parse` accepted; the harness uses addresses in canonical form) -/
+structure Hdr where
+  typ : String
+  id : String
+  to : String
+  frm : String
+  deriving DecidableEq, Repr, Inhabited
+
+/-- `MessageType.UnmarshalXMLAttr`: the five declared types, anything else is `normal` -/
+def msgTypeOf (v : String) : String :=
+  if v == "normal" || v == "chat" || v == "error" || v == "groupchat" || v == "headline" then v else "normal"
+
+/-- the value a `type` attribute gives the stanza: verbatim for IQs and presences -/
+def typeOfAttr (k : Kind) (v : String) : String := if k == .msg then msgTypeOf v else v
+
+/-- the stanza's own attribute named `loc` -/
+def ownAttr (a : Attr) (loc : String) : Bool := a.name.space == "" && a.name.loc == loc
+
+/-- one iteration of the attribute loop of `NewIQ` / `NewMessage` / `NewPresence` -/
+def hdrStep (k : Kind) (h : Hdr) (a : Attr) : Hdr :=
+  if a.name.space != "" then h
+  else if a.name.loc == "type" then { h with typ := typeOfAttr k a.value }
+  else if a.name.loc == "id" then { h with id := a.value }
+  else if a.name.loc == "to" then (if a.value == "" then h else { h with to := a.value })
+  else if a.name.loc == "from" then (if a.value == "" then h else { h with frm := a.value })
+  else h
+
+/-- the header before the loop: a message without a type attribute is `normal` -/
+def hdrInit (k : Kind) : Hdr := ⟨if k == .msg then "normal" else "", "", "", ""⟩
+
+def stanzaHdr (k : Kind) (attrs : List Attr) : Hdr := attrs.foldl (hdrStep k) (hdrInit k)
+
+/-- attributes of the start element a stanza begins with -/
+def startAttrs : List Tok → List Attr
+  | .start _ as :: _ => as
+  | _ => []
+
+/-- `msgRouter` / `presenceRouter`: the type comes from the stanza's own attributes, then
+`forChildren` -/
+def stanzaRoute (f : Framing) (tbl : Table) (k : Kind) (stanza : List Tok) (cons : List Nat) : List Call :=
+  forChildrenF f tbl k (stanzaHdr k (startAttrs stanza)).typ stanza cons
+
+/-- `iqFallback`: nothing for a reply; a request (every other type, also an unknown one) is
+answered with an error addressed back to its sender, with the request's id — whatever the
+addresses are (absent, different, equal) -/
+def fallbackReply (h : Hdr) : Option Hdr :=
+  if h.typ == "error" || h.typ == "result" then none
+  else some { typ := "error", id := h.id, to := h.frm, frm := h.to }
+
+inductive IqOut
+  | handler (p : Pattern) (payload : Name) (view : List Tok)
+  /-- the fallback wrote one error reply with this header -/
+  | reply (h : Hdr)
+  | nothing | err
+  deriving DecidableEq, Repr
+
+/-- `iqRouter` from the start element on: the type of the IQ is that of its own `type`
+attribute; the reply of the fallback is computed from the IQ's own id and addresses -/
+def iqRouteA (tbl : Table) (stanza : List Tok) (c : Nat) : IqOut :=
+  let h := stanzaHdr .iq (startAttrs stanza)
+  match iqRoute tbl h.typ stanza c with
+  | .handler p n v => .handler p n v
+  | .fallback => (match fallbackReply h with | some r => .reply r | none => .nothing)
+  | .nothing => .nothing
+  | .err => .err
+
+/-- what the encoder handed to `HandleXMPP` receives when the k-th invoked registered handler
+writes one token naming its ordinal: every handler's write, in the order of the calls -/
+def writesOf (calls : List Call) : List Nat := List.range (calls.filter fun c => c.pat.isSome).length
+
 /-! ### the tables probed on the real code (`harness facts C14`)
 
 The same finite tables computed by the model; `Props/C14.lean` proves them equal to the ones the
@@ -338,6 +416,59 @@ def maskTable (k : Kind) (typ : String) (mask : Nat) : Table :=
 def cascadeTableModel : List CascadeRow :=
   [(Kind.top, "", 8), (Kind.iq, "set", 16), (Kind.msg, "chat", 16), (Kind.pres, "unavailable", 16)].flatMap
     fun (k, typ, n) => (List.range n).map fun mask => ⟨k, typ, mask, lookup (maskTable k typ mask) k typ probeName⟩
+
+/-- the attribute universe of the header probe: own and foreign `type`, `id`, `to`, `from`
+attributes (foreign = another namespace, the stanza's own namespace bound to a prefix, `xml`) -/
+def probeAttrs : List Attr :=
+  [⟨⟨"", "type"⟩, "chat"⟩, ⟨⟨"", "type"⟩, "unavailable"⟩, ⟨⟨"", "type"⟩, ""⟩,
+   ⟨⟨"urn:ext", "type"⟩, "error"⟩, ⟨⟨"jabber:client", "type"⟩, "subscribe"⟩,
+   ⟨⟨"http://www.w3.org/XML/1998/namespace", "lang"⟩, "en"⟩,
+   ⟨⟨"", "id"⟩, "i1"⟩, ⟨⟨"urn:ext", "id"⟩, "i2"⟩,
+   ⟨⟨"", "to"⟩, "a@example.org"⟩, ⟨⟨"urn:ext", "from"⟩, "b@example.org"⟩, ⟨⟨"", "from"⟩, "c@example.org/r"⟩]
+
+/-- every attribute list of length ≤ 2 over the universe, in order (two own attributes of one
+name are not well-formed XML and are left out) -/
+def probeAttrLists : List (List Attr) :=
+  [[]] ++ probeAttrs.map (fun a => [a]) ++ probeAttrs.flatMap fun a =>
+    (probeAttrs.filter fun b => !(a.name.space == "" && b.name.space == "" && a.name.loc == b.name.loc)).map fun b => [a, b]
+
+structure HdrRow where
+  kind : Kind
+  attrs : List Attr
+  hdr : Hdr
+  deriving DecidableEq, Repr
+
+def hdrTableModel : List HdrRow :=
+  [Kind.iq, Kind.msg, Kind.pres].flatMap fun k => probeAttrLists.map fun as => ⟨k, as, stanzaHdr k as⟩
+
+def probeAddrs : List String := ["", "a@example.org/r", "b@example.net"]
+
+structure FallbackRow where
+  req : Hdr
+  reply : Option Hdr
+  deriving DecidableEq, Repr
+
+/-- unhandled IQs of every type × every pair of addresses (absent, different, **equal**) × with
+and without id -/
+def fallbackReqs : List Hdr :=
+  (probeTypes .iq).flatMap fun t => probeAddrs.flatMap fun to => probeAddrs.flatMap fun frm =>
+    ["", "d1"].map fun id => ⟨t, id, to, frm⟩
+
+/-- the start element attributes of a request with header `h` (empty fields are absent) -/
+def reqAttrs (h : Hdr) : List Attr :=
+  (if h.typ == "" then [] else [(⟨⟨"", "type"⟩, h.typ⟩ : Attr)]) ++
+  (if h.id == "" then [] else [⟨⟨"", "id"⟩, h.id⟩]) ++
+  (if h.to == "" then [] else [⟨⟨"", "to"⟩, h.to⟩]) ++
+  (if h.frm == "" then [] else [⟨⟨"", "from"⟩, h.frm⟩])
+
+/-- the IQ with header `h` and the payload `probeName`, as the token list `HandleXMPP` sees -/
+def probeIq (h : Hdr) : List Tok :=
+  [.start ⟨"jabber:client", "iq"⟩ (reqAttrs h), .start probeName [], .stop probeName, .stop ⟨"jabber:client", "iq"⟩]
+
+/-- a multiplexer without patterns, the IQ sent through `iqRouteA` (header from the attributes,
+payload lookup, fallback) -/
+def fallbackTableModel : List FallbackRow :=
+  fallbackReqs.map fun h => ⟨h, match iqRouteA [] (probeIq h) 0 with | .reply r => some r | _ => none⟩
 
 /-! ### histories on one multiplexer
 
